@@ -244,7 +244,8 @@ def gen_cli_case(r, idx, quick):
     if kind in ("wav", "raw") and r.random() < 0.4:
         opts["large_file"] = True
     tf = r.choice(TEMPLATES[:5] + ["%S", "%S"])
-    pf = r.choice(["{id} {start} {end}", "{id} {start} {end} {duration}", "{duration}|{id}", "[{id}]\\t{start} -> {end}", "{end} {start}"])
+    pf = r.choice(["{id} {start} {end}", "{id} {start} {end} {duration}", "{duration}|{id}", "[{id}]\\t{start} -> {end}", "{end} {start}",
+                   "{id}: {start} \u2192 {end} (dur\u00e9e {duration} s, \u00b5)", "\u65e5\u672c {id} {start}\\t{end} \u00df"])
     if tf != "%S" or r.random() < 0.3:
         opts["time_format"] = tf
     if pf != "{id} {start} {end}" or r.random() < 0.3:
